@@ -14,3 +14,4 @@ import FlodymProofs.Props.C04
 #print axioms Flodym.C04.getitem_order_independent
 #print axioms Flodym.C04.setitem_source_order_independent
 #print axioms Flodym.C04.setitem_whole_order_independent
+#print axioms Flodym.C04.lifetime_parameter_order_independent
